@@ -270,7 +270,8 @@ class Merge(Expr):
         if (
             s_method in ("tasks", "p2p")
             and self.how in ("inner", "left", "right", "leftsemi")
-            and self.how != broadcast_side
+            # the preserved side of a left/leftsemi/right join can't be broadcasted
+            and self.how.replace("leftsemi", "left") != broadcast_side
             and broadcast is not False
         ):
             n_low = min(self.left.npartitions, self.right.npartitions)
